@@ -73,7 +73,7 @@ def gen_api(ctx):
             else:
                 ok.append(o)     # J may release a task: tracked by the oracle from the tables
         out.append(ok)
-    uniq = list(dict.fromkeys(tuple(s) for s in out))
+    uniq = list(dict.fromkeys(tuple(s) for s in out if s))
     return [list(s) for s in uniq]
 
 
